@@ -20,7 +20,7 @@ func TestC06(t *testing.T) {
 	caseNo := 0
 	rapid.Check(t, func(t *rapid.T) {
 		caseNo++
-		sch := genSchema(t, SchemaCfg{Key: 1, Late: true, Merges: true, MinCols: 1, MaxCols: 5, NoLenMerge: KFActive("f15-difflen-merge-reorder")})
+		sch := genSchema(t, SchemaCfg{Key: 1, Late: true, Merges: true, MinCols: 1, MaxCols: 5})
 		ch := make(commit.Channel, 64)
 		// serialized log: in memory, and every 4th case through a real file
 		var mem bytes.Buffer
@@ -43,7 +43,7 @@ func TestC06(t *testing.T) {
 		replica := newCollection(sch, column.Options{})
 		defer replica.Close()
 		cfg := TxnCfg{Prop: "C06", MaxSteps: 10, Rollback: true, Deletes: true, Inserts: true, Merges: true, OwnUpdates: true, KeyOps: true, Direct: true,
-			NoStoreOnDel: KFActive("f11-store-and-delete-same-txn")}
+			NoStoreOnDel: KFActive("f11-store-and-delete-same-txn"), NoOpAfterLenMerge: KFActive("f15-difflen-merge-reorder")}
 		replayed := 0
 		sync := func(t *rapid.T) {
 			for {
